@@ -295,3 +295,7 @@ Proof.
   - destruct (aget b c) as [[m es]|]; reflexivity.
   - destruct (aget b c) as [[m es]|]; reflexivity.
 Qed.
+
+Lemma mem_frame_reachable : forall h o b', target o <> Some b' ->
+  mem_view (fst (mem_step (mem_run mem_init h) o)) b' = mem_view (mem_run mem_init h) b'.
+Proof. intros h o b'. apply mem_frame, mem_run_Inv, mem_Inv_init. Qed.
